@@ -17,7 +17,7 @@ ATTRS = ['CKA_CLASS', 'CKA_TOKEN', 'CKA_PRIVATE', 'CKA_LABEL', 'CKA_APPLICATION'
 # nested templates: only their size is read (a NULL-pointer query)
 SIZE_ONLY = ['CKA_WRAP_TEMPLATE', 'CKA_UNWRAP_TEMPLATE']
 ALL = ATTRS + SIZE_ONLY
-CAP = 2048
+CAP = 384
 READ_OK = ('CKR_OK', 'CKR_ATTRIBUTE_SENSITIVE', 'CKR_ATTRIBUTE_TYPE_INVALID', 'CKR_BUFFER_TOO_SMALL')
 
 def read_object(x, s, h):
